@@ -125,6 +125,7 @@ type Store struct {
 	dropAt    map[int64]bool
 	resetAt   map[int64]bool
 	tagFaults map[string][]Fault
+	stalls    map[string]*Stall
 	closed    bool
 	unsupp    []string // texts of scripts outside the minilua subset
 	unknown   []string // unknown commands seen
@@ -158,6 +159,13 @@ func (s *Store) Close() {
 	s.closed = true
 	for _, c := range s.conns {
 		c.Close()
+	}
+	for tag, st := range s.stalls {
+		if !st.released {
+			st.released = true
+			close(st.release)
+		}
+		delete(s.stalls, tag)
 	}
 	s.mu.Unlock()
 	s.ln.Close()
@@ -248,6 +256,65 @@ func (s *Store) FaultNext(tag string, f Fault) {
 	s.mu.Lock()
 	s.tagFaults[tag] = append(s.tagFaults[tag], f)
 	s.mu.Unlock()
+}
+
+// Stall holds one data request of a tagged connection back, received but not executed, until it
+// is released: the network delivered the request late. Virtual time and other connections go on.
+type Stall struct {
+	s        *Store
+	tag      string
+	nth      int
+	seen     int
+	parked   chan struct{}
+	release  chan struct{}
+	released bool
+}
+
+// StallNth arms a stall on the nth (1-based) data request that arrives from now on over a
+// connection with this tag. At most one stall per tag.
+func (s *Store) StallNth(tag string, nth int) *Stall {
+	st := &Stall{s: s, tag: tag, nth: nth, parked: make(chan struct{}), release: make(chan struct{})}
+	s.mu.Lock()
+	if s.stalls == nil {
+		s.stalls = map[string]*Stall{}
+	}
+	s.stalls[tag] = st
+	s.mu.Unlock()
+	return st
+}
+
+// Parked is closed once the request is being held.
+func (st *Stall) Parked() <-chan struct{} { return st.parked }
+
+// Release lets the held request execute (or disarms a stall that never caught a request).
+func (st *Stall) Release() {
+	st.s.mu.Lock()
+	if !st.released {
+		st.released = true
+		close(st.release)
+	}
+	if st.s.stalls[st.tag] == st {
+		delete(st.s.stalls, st.tag)
+	}
+	st.s.mu.Unlock()
+}
+
+// park blocks the connection's goroutine if an armed stall of its tag selects this request.
+func (s *Store) park(tag string) {
+	s.mu.Lock()
+	st := s.stalls[tag]
+	if st == nil || st.released {
+		s.mu.Unlock()
+		return
+	}
+	st.seen++
+	if st.seen != st.nth {
+		s.mu.Unlock()
+		return
+	}
+	close(st.parked)
+	s.mu.Unlock()
+	<-st.release
 }
 
 // ClearFaults disarms every pending per-tag fault (those never consumed because the client did
@@ -372,6 +439,9 @@ func (s *Store) serve(id int64, c net.Conn) {
 		}
 		if len(args) == 0 {
 			continue
+		}
+		if !isHandshake(strings.ToUpper(args[0])) {
+			s.park(cs.tag)
 		}
 		reply, fault, quit := s.handle(cs, args)
 		switch fault {
